@@ -15,6 +15,8 @@ Go's `append` (any capacity that is large enough).
 * `c20_disjoint`           handles live at the same time have different backing arrays, none of which is in a pool
 * `c20_frame`              an operation on one handle (Malloc, the client's own stores, Append, Realloc, Free)
                            leaves every other live handle and its bytes unchanged
+* `c20_accepts`            the model never rejects a well-formed operation with possible environment answers
+                           (fresh pool answer, large enough growth): the other theorems are not vacuous
 * `c20_no_panic`           no operation panics (the aligned allocator's reslice stays within the capacity)
 * `c20_aligned_foreign_cap_counterexample`   outside the contract: freeing a *foreign* buffer of capacity 96 files
                            it under the 128 class and the next `Malloc(100)` panics -/
@@ -365,6 +367,112 @@ theorem c20_no_panic (g : Cfg) (ops : List Op) (o : Op) : step g (run g {} ops) 
   | free h tag =>
     simp only [step]
     split <;> simp
+
+
+/-! ### the model does not reject what can happen (the theorems above are not vacuous) -/
+
+theorem goAppend_accepts (s : St) (rid keep grow : Nat) (more : Bytes) (h : keep + more.length ≤ grow) :
+    ∃ p, goAppend s rid keep more grow = .ok p := by
+  simp only [goAppend]
+  split
+  · exact ⟨_, rfl⟩
+  · split
+    · omega
+    · exact ⟨_, rfl⟩
+
+theorem mpGet_accepts (g : Cfg) (s : St) (size grow : Nat) (h : size ≤ grow) :
+    ∃ p, mpGet g s size .fresh grow = .ok p := by
+  simp only [mpGet, poolGet]
+  split
+  · rename_i hlt
+    exact goAppend_accepts _ _ _ _ _ (by simp [zeros] at hlt ⊢; omega)
+  · exact ⟨_, rfl⟩
+
+theorem alMalloc_accepts (s : St) (size : Nat) : ∃ p, alMalloc s size .fresh = .ok p := by
+  simp only [alMalloc, poolGet]
+  split
+  · rename_i hsz
+    have hc : size ≤ ((s.alloc (classSize (classOf size)) []).1.region (s.alloc (classSize (classOf size)) []).2).cap := by
+      rw [alloc_cap]; exact (classOf_spec size hsz).1
+    simp only [hc, if_true]
+    exact ⟨_, rfl⟩
+  · exact ⟨_, rfl⟩
+
+theorem doMalloc_accepts (g : Cfg) (s : St) (size grow : Nat) (h : size ≤ grow) :
+    ∃ p, doMalloc g s size .fresh grow = .ok p := by
+  unfold doMalloc
+  split
+  · simp only [mpMalloc]
+    split
+    · exact ⟨_, rfl⟩
+    · obtain ⟨p, hp⟩ := mpGet_accepts g s size grow h
+      rw [hp]; exact ⟨_, rfl⟩
+  · exact alMalloc_accepts s size
+  · exact ⟨_, rfl⟩
+
+theorem doAppend_accepts (g : Cfg) (s : St) (x : Handle) (more : Bytes) (grow tag : Nat)
+    (h : x.len + more.length ≤ grow) : ∃ p, doAppend g s x more .fresh grow tag = .ok p := by
+  have mp : ∃ p, mpAppend s x more grow = .ok p := by
+    simp only [mpAppend]
+    obtain ⟨p, hp⟩ := goAppend_accepts s x.rid x.len grow more h
+    rw [hp]; exact ⟨_, rfl⟩
+  unfold doAppend
+  split
+  · exact mp
+  · exact mp
+  · simp only [alAppend]
+    split
+    · exact ⟨_, rfl⟩
+    · obtain ⟨p, hp⟩ := alMalloc_accepts s (x.len + more.length)
+      rw [hp]; exact ⟨_, rfl⟩
+
+theorem doRealloc_accepts (g : Cfg) (s : St) (x : Handle) (size grow tag : Nat) (h : size ≤ grow) :
+    ∃ p, doRealloc g s x size .fresh grow tag = .ok p := by
+  unfold doRealloc
+  split
+  · simp only [mpRealloc]
+    split
+    · exact ⟨_, rfl⟩
+    · rename_i hnofit
+      split
+      · obtain ⟨p, hp⟩ := mpGet_accepts g s size grow h
+        rw [hp]; exact ⟨_, rfl⟩
+      · obtain ⟨p, hp⟩ := goAppend_accepts s x.rid (s.region x.rid).cap grow (zeros (size - (s.region x.rid).cap))
+          (by simp [zeros]; omega)
+        rw [hp]; exact ⟨_, rfl⟩
+  · simp only [alRealloc]
+    split
+    · exact ⟨_, rfl⟩
+    · obtain ⟨p, hp⟩ := alMalloc_accepts s size
+      rw [hp]; exact ⟨_, rfl⟩
+  · exact ⟨_, rfl⟩
+
+/-- The model never rejects a well-formed operation whose environment answers are possible: with the
+    pool answering `New()` (`Choice.fresh`, always possible) and any growth capacity that is large enough,
+    `Malloc` under an unused name, `Append`/`Realloc`/`Free` of a live handle and a store inside the buffer
+    are all accepted — in every state.  So the contract theorems above speak about every such operation
+    (`run` skips only ill-formed ones), for every allocator. -/
+theorem c20_accepts (g : Cfg) (s : St) (h : Nat) :
+    (∀ size grow, s.lookup h = none → size ≤ grow → ∃ s', step g s (.malloc h size .fresh grow) = .ok s') ∧
+    (∀ x more grow tag, s.lookup h = some x → x.len + more.length ≤ grow →
+        ∃ s', step g s (.append h more .fresh grow tag) = .ok s') ∧
+    (∀ x size grow tag, s.lookup h = some x → size ≤ grow → ∃ s', step g s (.realloc h size .fresh grow tag) = .ok s') ∧
+    (∀ x tag, s.lookup h = some x → ∃ s', step g s (.free h tag) = .ok s') ∧
+    (∀ x off data, s.lookup h = some x → off + data.length ≤ x.len → ∃ s', step g s (.write h off data) = .ok s') := by
+  refine ⟨?_, ?_, ?_, ?_, ?_⟩
+  · intro size grow hl hg
+    obtain ⟨p, hp⟩ := doMalloc_accepts g s size grow hg
+    simp only [step, hl, hp]; exact ⟨_, rfl⟩
+  · intro x more grow tag hl hg
+    obtain ⟨p, hp⟩ := doAppend_accepts g s x more grow tag hg
+    simp only [step, hl, hp]; exact ⟨_, rfl⟩
+  · intro x size grow tag hl hg
+    obtain ⟨p, hp⟩ := doRealloc_accepts g s x size grow tag hg
+    simp only [step, hl, hp]; exact ⟨_, rfl⟩
+  · intro x tag hl
+    simp only [step, hl]; exact ⟨_, rfl⟩
+  · intro x off data hl hfit
+    simp only [step, hl, hfit, if_true]; exact ⟨_, rfl⟩
 
 /-! ### outside the contract (documented, not a finding: DESIGN §6 C20) -/
 
